@@ -47,6 +47,9 @@ namespace occa {
         }
 
         if (!success) return;
+        checkKernelCalls();
+
+        if (!success) return;
         setOklLoopIndices();
 
         if (!success) return;
@@ -63,6 +66,24 @@ namespace occa {
 
         if (!success) return;
         afterKernelSplit();
+      }
+
+      void withLauncher::checkKernelCalls() {
+        // [@kernel] functions are split into one kernel per [@outer] loop and
+        //   the original function is deleted: nothing can call them
+        root.children
+          .flatFilterByExprType(exprNodeType::function, "kernel")
+          .forEach([&](smntExprNode smntExpr) {
+              // Skip the declaration of the kernel itself
+              if (smntExpr.smnt->type() & (statementType::functionDecl |
+                                           statementType::function)) {
+                return;
+              }
+              smntExpr.node->token->printError(
+                "Cannot call a [@kernel] function from device code"
+              );
+              success = false;
+            });
       }
 
       void withLauncher::beforeKernelSplit() {}
